@@ -4,7 +4,7 @@ import glob, json, os, re
 here = os.path.dirname(os.path.dirname(os.path.abspath(__file__)))
 def rd(p): return open(os.path.join(here, p), encoding='utf-8').read()
 out = [rd('design.d/_head.md').rstrip('\n'), '']
-EXTRA = {'C01': ['WRAP', 'OS', 'HANDLES'], 'C02': ['TEXT'], 'C10': ['INFO'], 'C12': ['PATHGEN']}
+EXTRA = {'C01': ['WRAP', 'OS', 'HANDLES', 'FTP'], 'C02': ['TEXT'], 'C10': ['INFO'], 'C12': ['PATHGEN']}
 props = [json.loads(l) for l in open(os.path.join(here, 'properties.jsonl')) if l.strip()]
 for p in props:
     f = 'design.d/%s.md' % p['id']
@@ -42,6 +42,8 @@ why = {
  'aliased-views-copy-into-itself-runaway': 'the library cannot in general know that two FS objects alias one storage',
  'aliased-views-same-file-truncated': 'needs alias detection across wrapper objects (SubFS chains, twin OSFS); not a small safe patch',
  'archive-close-after-failed-write': 'what a failed finalisation should leave behind (keep content for a retry / mark closed and drop it) is a design decision for the maintainers',
+ 'ftpfile-': 'FTPFile is a stream adaptor; seven local classes have a patch (findings/C16-ftpfs-ftpfile.patch), the others need a design decision (separate control connections, waiting for 226, size bookkeeping) — findings/C16-ftpfs-ftpfile.md',
+ 'ftpfs-': 'small patch proposed in findings/ (same failure set of tests/test_ftpfs.py before and after); not landed by the package that found it',
  'localtime-read-as-utc': 'changes stored timestamps of every archive written outside UTC; behaviour change for the maintainers to judge (patch kept in findings/)',
 }
 for e in k['open']:
